@@ -6,6 +6,9 @@ mod util;
 
 use std::io::Write;
 
+#[global_allocator]
+static ALLOC: util::Counting = util::Counting;
+
 fn arg(args: &[String], name: &str) -> Option<String> {
     args.iter().position(|a| a == name).and_then(|i| args.get(i + 1).cloned())
 }
@@ -47,6 +50,20 @@ fn main() {
                 "lasso_build": cfg!(feature = "lasso"),
             });
             writeln!(f, "{}", dist).unwrap();
+        }
+        Some("leakcheck") => {
+            // run the session three times; after a warm-up the live byte count must not move
+            let ops = args.get(2).expect("leakcheck <ops.txt>");
+            let text = std::fs::read_to_string(ops).unwrap();
+            let lines: Vec<String> = text.lines().map(|s| s.to_string()).collect();
+            let mut live = vec![];
+            for _ in 0..3 {
+                let rep = interp::run_ops_opt(&lines, false);
+                drop(rep);
+                live.push(util::live_bytes());
+            }
+            println!("{{\"live_after_runs\": [{}, {}, {}], \"net_bytes\": {}}}", live[0], live[1], live[2], live[2] - live[1]);
+            std::process::exit(if live[2] == live[1] { 0 } else { 1 });
         }
         _ => {
             eprintln!("usage: harness gen <what> --seed S --tier T --out FILE | harness run OPS --out DIR");
